@@ -344,6 +344,7 @@ PROPS = {
         "mc": [MC_MM],
         "replay": [gen_mm("seq", maxlen=("5", "6")), gen_mm("tree", maxlen=("3", "4")), gen_mm("hist", depth=("3", "4"))],
         "trace": [TR_MM],
+        "direct": [INGEST_LONG],
         "rule": "every sequence over the seven tokens {-inf,-1,-0.0,0.0,1,+inf,NaN} up to the length bound (all permutations are "
                 "among them), every chunking into <= 3 chunks and merge order/direction, arbitrary histories with from_value; "
                 "collect/extend ingestion on every add-only slot; finite tokens at scales 1, 1e-30, 1e30",
